@@ -252,6 +252,7 @@ class QvmCode(BaseCode):
         self._routines = {}
         self._main_routine = None
         self._string_literals = []
+        self._routine_locs = {}
         self._globals = None
         self._debug_info_enabled = False
         self._source_code = None
@@ -291,9 +292,12 @@ class QvmCode(BaseCode):
     def add_user_type(self, type_block):
         self._user_types[type_block.name] = type_block
 
-    def add_routine(self, routine):
+    def add_routine(self, routine, node=None):
         assert isinstance(routine, Routine)
         self._routines[routine.name] = routine
+        # where the routine starts in the source (for diagnostics)
+        self._routine_locs[routine.name] = \
+            getattr(node, 'loc_start', None) or 0
 
     def add_string_literal(self, value):
         if value not in self._string_literals:
@@ -734,10 +738,11 @@ class QvmCode(BaseCode):
         # the module format has 16-bit fields for variable indices,
         # frame sizes, literal indices and the lengths in the literals
         # and data sections
-        def too_large(what):
+        def too_large(what, loc=0):
             raise CompileError(
                 EC.PROGRAM_TOO_LARGE,
-                f'Program too large for a QVM module: {what}')
+                f'Program too large for a QVM module: {what}',
+                loc_start=loc)
 
         for routine in self._routines.values():
             if get_params_size(routine) + \
@@ -747,7 +752,8 @@ class QvmCode(BaseCode):
                     name = 'the main program'
                 too_large(
                     f'the variables of {name} need more than 65535 '
-                    f'cells')
+                    f'cells',
+                    self._routine_locs.get(routine.name, 0))
         start_idx = 0
         for vtype in self._globals.values():
             size = get_type_size(self.compilation, vtype)
@@ -1947,7 +1953,7 @@ def gen_exit_function(node, code, codegen):
 
 @QvmCodeGen.generator_for(stmt.SubBlock)
 def gen_sub_block(node, code, codegen):
-    code.add_routine(node.routine)
+    code.add_routine(node.routine, node)
 
     code.add(('_label', '_sub_' + node.name))
 
@@ -1961,7 +1967,7 @@ def gen_sub_block(node, code, codegen):
 
 @QvmCodeGen.generator_for(stmt.FunctionBlock)
 def gen_func_block(node, code, codegen):
-    code.add_routine(node.routine)
+    code.add_routine(node.routine, node)
 
     code.add(('_label', '_func_' + node.name))
 
